@@ -18,7 +18,7 @@ from lib.main import Case, Suite
 from props import lib_exec as X
 from props import lib_server as L
 
-GENERATORS = ["server", "exec", "store", "pdu", "framer_tcpascii"]
+GENERATORS = ["server", "exec", "store", "pdu", "framer_tcpascii", "framer_rtubin"]
 PROP_FILES = ["C09_e2e", "C09_e2e_ascii", "C09_e2e_rtu"]
 CASE_DEPS = ["theories/CorrE2E.vo", "theories/CorrE2ESerial.vo"]
 TRUSTED = [
